@@ -45,7 +45,7 @@ def oracle(case, obs):
 
 
 def enc(case, obs):
-    if obs.get("ok") is None:
+    if obs.get("ok") is None or case.get("protocol") == "auto":
         return None
     text = case["text"]
     if isinstance(text, list):
@@ -76,6 +76,15 @@ def suites(tier, seed):
                  ("redundant", render_full(t)), ("spaced", render_min(t, rnd))]
         for name, txt in rends:
             cases.append({"text": txt, "protocol": "v2", "tree": t, "rendering": name})
+        # parentheses written directly against their neighbour words ("a and(b)", "(a)or c"): the same formula, also when
+        # the dialect is left to auto-detection (the default)
+        glued = render_full(t).replace("( ", "(").replace(" )", ")")
+        for k in ("and", "or", "not"):
+            glued = glued.replace(k + " (", k + "(").replace(") " + k, ")" + k)
+        if glued != render_full(t):
+            cases.append({"text": glued, "protocol": "v2", "tree": t, "rendering": "glued"})
+            if any(w in glued.split() or ("(" + w) in glued or (w + "(") in glued for w in ("and", "or", "not")):
+                cases.append({"text": glued, "protocol": "auto", "tree": t, "rendering": "glued-auto"})
         if t[0] == "and":           # list-of-terms form: every argument is one term, AND-ed
             cases.append({"text": [render_min(t[1]), render_min(t[2], None, True)], "protocol": "v2", "tree": t, "rendering": "list"})
             # terms in their redundant / canonical renderings: "(a) or (b)" starts and ends with a parenthesis without being one group
@@ -85,6 +94,15 @@ def suites(tier, seed):
             def open_top(e):            # "(l) op (r)": parenthesised operands, no parentheses around the whole term
                 return "(%s) %s (%s)" % (render_min(e[1]), e[0], render_min(e[2])) if e[0] in ("and", "or") else render_min(e)
             cases.append({"text": [open_top(t[1]), open_top(t[2])], "protocol": "v2", "tree": t, "rendering": "list-open"})
+    # ... and with one side glued only, so that no keyword or parenthesis stands alone between blanks: "a and(b)", "(a)or (b)"
+    simple = [a for a in atoms()]
+    for x in simple:
+        for y in simple:
+            for op in ("and", "or"):
+                tx, ty = render_min(x), render_min(y)
+                for txt in ("%s %s(%s)" % (tx, op, ty), "(%s)%s (%s)" % (tx, op, ty), "%s %s(not %s)" % (tx, op, ty) if False else "%s %s(%s )" % (tx, op, ty)):
+                    for proto in ("v2", "auto"):
+                        cases.append({"text": txt, "protocol": proto, "tree": (op, x, y), "rendering": "half-glued"})
     cases.append({"text": "", "protocol": "v2", "tree": ("true",), "rendering": "empty"})
     cases.append({"text": [], "protocol": "v2", "tree": ("true",), "rendering": "empty-list"})
     for _ in range(3000 if thorough else 500):
